@@ -9,7 +9,15 @@ structure (`if i == axis: … elif shape[i] != ishape[i]: raise`) and the three 
 T2 (`_apply_axis`): the axis normalisation of `Hstack/Vstack/Diag._apply`.
 `Props/C03Loop.lean` proves that the translated loops equal the hand-written model `stackParams` / `zipGuard` for
 every input (`gen_loop_eq_combined`, `gen_guard_agree`).  Any construct outside the subset raises `T.Unsupported`
-(a broken obligation, never a pass)."""
+(a broken obligation, never a pass).
+
+Robustness to behaviour-preserving respellings: the parsed source first goes through `norm_c03.normalize` (exact Python
+equivalences only: negation normal form / swapped branches, `reversed(X)` = `X[::-1]`, `zip(X, X[1:])`, any/all guards,
+`x = a if c else b`, inlining of straight-line private helpers with arguments resolved against the signature, keyword ->
+positional, substitution of total single-assignment temporaries), and the typed translators emit every integer sum and
+every single integer comparison in ONE canonical order (`_lin_sum`, `_lin_cmp`: `ndim - 1 - axis` = `ndim - axis - 1`,
+`n + 1 == nops` = `n == nops - 1`; `+` on lists / arrays is never reordered).  Both are equivalences: a changed constant, sign,
+operand, branch or argument still changes the generated definition.  `norm_c03.selftest()` runs on every check."""
 import ast
 import copy
 import re
